@@ -259,6 +259,214 @@ func ifEndsWithContinue(rel, fn string, markers []string, leanName string) func(
 	}
 }
 
+// stmtRangeKernel translates the statements of fn that lie strictly between the statement whose source starts with
+// `after` and the statement whose source starts with `before` (both must be direct children of the function body), in
+// their order, as one Lean definition returning `result` — so that moving a statement changes the term.
+func stmtRangeKernel(rel, fn, after, before, leanName, params, resultTy, result string, sp Spec) func() string {
+	return func() string {
+		fd := mustFunc(rel, fn)
+		lo, hi := -1, -1
+		for i, st := range fd.Body.List {
+			c := src(st)
+			if lo < 0 && strings.HasPrefix(c, after) {
+				lo = i
+			} else if lo >= 0 && hi < 0 && strings.HasPrefix(c, before) {
+				hi = i
+			}
+		}
+		if lo < 0 || hi < 0 || hi <= lo+1 {
+			panic(bail{fmt.Sprintf("%s: cannot delimit the statements between `%s` and `%s` in %s", rel, after, before, fn)})
+		}
+		t := &tr{sp: sp}
+		body := t.block(fd.Body.List[lo+1:hi], result, "  ")
+		return fmt.Sprintf("/-- generated from %s func %s: the statements between `%s…` and `%s…`, in order -/\ndef %s %s : %s :=\n  %s\n", rel, fn, after, before, leanName, params, resultTy, body)
+	}
+}
+
+func scanStrList(xs []string) string {
+	var q []string
+	for _, x := range xs {
+		q = append(q, fmt.Sprintf("%q", x))
+	}
+	return "[" + strings.Join(q, ", ") + "]"
+}
+
+// mentionsSelector: does fn contain a selector expression `recv.name` (or a call of `recv.name()`)?
+func mentionsSelector(rel, fn, recv string, names []string, leanName, doc string) func() string {
+	return func() string {
+		fd := mustFunc(rel, fn)
+		found := false
+		ast.Inspect(fd.Body, func(n ast.Node) bool {
+			if se, ok := n.(*ast.SelectorExpr); ok {
+				if id, ok := se.X.(*ast.Ident); ok && id.Name == recv {
+					for _, nm := range names {
+						if se.Sel.Name == nm {
+							found = true
+						}
+					}
+				}
+			}
+			return true
+		})
+		return fmt.Sprintf("/-- generated from %s func %s: %s -/\ndef %s : Bool := %v\n", rel, fn, doc, leanName, found)
+	}
+}
+
+// errorReturnGuards lists, for every `return` of fn whose last result is not `nil`, the condition of the innermost enclosing `if`
+// together with the source of the statement just before that `if` (where the error comes from).
+func errorReturnGuards(rel, fn, leanName string) func() string {
+	return func() string {
+		fd := mustFunc(rel, fn)
+		var rows []string
+		var walk func(list []ast.Stmt)
+		walk = func(list []ast.Stmt) {
+			for i, st := range list {
+				is, ok := st.(*ast.IfStmt)
+				if !ok {
+					continue
+				}
+				for _, b := range is.Body.List {
+					if r, ok := b.(*ast.ReturnStmt); ok && len(r.Results) > 0 && src(r.Results[len(r.Results)-1]) != "nil" {
+						prev := ""
+						if i > 0 {
+							prev = src(list[i-1])
+						}
+						if is.Init != nil {
+							prev = src(is.Init)
+						}
+						rows = append(rows, prev+" ;; "+src(is.Cond))
+					}
+				}
+				walk(is.Body.List)
+			}
+		}
+		walk(fd.Body.List)
+		// an unconditional error return at top level would not be inside an `if`
+		for _, st := range fd.Body.List {
+			if r, ok := st.(*ast.ReturnStmt); ok && len(r.Results) > 0 && src(r.Results[len(r.Results)-1]) != "nil" {
+				rows = append(rows, "unconditional ;; "+src(r))
+			}
+		}
+		return fmt.Sprintf("/-- generated from %s func %s: every `return` with a non-nil error, as `<statement producing the error> ;; <guard>` -/\ndef %s : List String :=\n  %s\n", rel, fn, leanName, scanStrList(rows))
+	}
+}
+
+// topLevelIfConds lists the conditions of the top-level `if` statements of fn, in order, followed by the source of its final return.
+func topLevelIfConds(rel, fn, leanName string) func() string {
+	return func() string {
+		fd := mustFunc(rel, fn)
+		var rows []string
+		for _, st := range fd.Body.List {
+			switch x := st.(type) {
+			case *ast.IfStmt:
+				rows = append(rows, "if "+src(x.Cond))
+			case *ast.ReturnStmt:
+				rows = append(rows, src(x))
+			}
+		}
+		return fmt.Sprintf("/-- generated from %s func %s: its top-level tests in order, then its final return -/\ndef %s : List String :=\n  %s\n", rel, fn, leanName, scanStrList(rows))
+	}
+}
+
+// backoffLiteral reads the fields of the unique `backoff.Backoff{…}` literal in fn: durations in nanoseconds, Factor as an integer.
+func backoffLiteral(rel, fn, prefix string) func() string {
+	return func() string {
+		fd := mustFunc(rel, fn)
+		var lits []*ast.CompositeLit
+		ast.Inspect(fd.Body, func(n ast.Node) bool {
+			if c, ok := n.(*ast.CompositeLit); ok && c.Type != nil && src(c.Type) == "backoff.Backoff" {
+				lits = append(lits, c)
+			}
+			return true
+		})
+		if len(lits) != 1 {
+			panic(bail{fmt.Sprintf("%s: expected one backoff.Backoff literal in %s, found %d", rel, fn, len(lits))})
+		}
+		vals := map[string]string{}
+		for _, el := range lits[0].Elts {
+			kv, ok := el.(*ast.KeyValueExpr)
+			if !ok {
+				panic(bail{fmt.Sprintf("%s: unkeyed backoff.Backoff literal", rel)})
+			}
+			k := src(kv.Key)
+			switch k {
+			case "Min", "Max":
+				v, ok := durLit(kv.Value)
+				if !ok {
+					panic(bail{fmt.Sprintf("%s: %s is not a duration literal: %s", rel, k, src(kv.Value))})
+				}
+				vals[k] = v
+			case "Factor":
+				v, ok := intLit(kv.Value)
+				if !ok {
+					panic(bail{fmt.Sprintf("%s: Factor is not an integer literal: %s", rel, src(kv.Value))})
+				}
+				vals[k] = v
+			case "Jitter":
+				vals[k] = src(kv.Value)
+			}
+		}
+		for _, k := range []string{"Min", "Max", "Factor", "Jitter"} {
+			if _, ok := vals[k]; !ok {
+				panic(bail{fmt.Sprintf("%s: backoff.Backoff literal in %s lacks %s", rel, fn, k)})
+			}
+		}
+		return fmt.Sprintf("/-- generated from %s func %s: `%s` (durations in ns) -/\ndef %sMin : Int := %s\ndef %sMax : Int := %s\ndef %sFactor : Int := %s\ndef %sJitter : Bool := %s\n",
+			rel, fn, src(lits[0]), prefix, vals["Min"], prefix, vals["Max"], prefix, vals["Factor"], prefix, vals["Jitter"])
+	}
+}
+
+// callArgSources: the argument sources of the unique call of callee in fn.
+func callArgSources(rel, fn, callee, leanName string) func() string {
+	return func() string {
+		fd := mustFunc(rel, fn)
+		var calls []*ast.CallExpr
+		ast.Inspect(fd.Body, func(n ast.Node) bool {
+			if c, ok := n.(*ast.CallExpr); ok && src(c.Fun) == callee {
+				calls = append(calls, c)
+			}
+			return true
+		})
+		if len(calls) != 1 {
+			panic(bail{fmt.Sprintf("%s: expected exactly one call of %s in %s, found %d", rel, callee, fn, len(calls))})
+		}
+		var xs []string
+		for _, a := range calls[0].Args {
+			xs = append(xs, src(a))
+		}
+		return fmt.Sprintf("/-- generated from %s func %s: arguments of `%s` -/\ndef %s : List String :=\n  %s\n", rel, fn, callee, leanName, scanStrList(xs))
+	}
+}
+
+// switchAssignTable: for the unique `switch tag` in fn, the pairs (case constant, right-hand side assigned to lhs).
+func switchAssignTable(rel, fn, tag, lhs, leanName string) func() string {
+	return func() string {
+		fd := mustFunc(rel, fn)
+		ss := findStmts(fd, func(s ast.Stmt) bool {
+			sw, ok := s.(*ast.SwitchStmt)
+			return ok && sw.Tag != nil && src(sw.Tag) == tag
+		})
+		if len(ss) != 1 {
+			panic(bail{fmt.Sprintf("%s: expected one switch %s in %s, found %d", rel, tag, fn, len(ss))})
+		}
+		var rows []string
+		for _, c := range ss[0].(*ast.SwitchStmt).Body.List {
+			cc := c.(*ast.CaseClause)
+			if cc.List == nil {
+				continue
+			}
+			for _, st := range cc.Body {
+				if a, ok := st.(*ast.AssignStmt); ok && len(a.Lhs) == 1 && src(a.Lhs[0]) == lhs {
+					for _, k := range cc.List {
+						rows = append(rows, fmt.Sprintf("(%q, %q)", src(k), src(a.Rhs[0])))
+					}
+				}
+			}
+		}
+		return fmt.Sprintf("/-- generated from %s func %s: `switch %s`, value assigned to %s per case -/\ndef %s : List (String × String) :=\n  [%s]\n", rel, fn, tag, lhs, leanName, strings.Join(rows, ", "))
+	}
+}
+
 func init() {
 	f := "scanner/fetcher.go"
 	ign := []string{"klog."}
@@ -303,6 +511,18 @@ func init() {
 			Spec{Kind: "i64", Repl: map[string]string{"b.Start": "bStart"}})},
 		{"addSequencedLeaves.retry", retrySwitchTable(m, "PreorderedLogClient.addSequencedLeaves", "retryTable")},
 		{"errRetry", errRetryKind(m, "errRetryIsRetriable")},
+		{"addSequencedLeaves.results", mentionsSelector(m, "PreorderedLogClient.addSequencedLeaves", "rsp", []string{"Results", "GetResults"}, "addSeqChecksResults",
+			"does the function look at the per-leaf statuses (`rsp.Results`) of a successful reply?")},
+		{"addSequencedLeaves.backoff", backoffLiteral(m, "PreorderedLogClient.addSequencedLeaves", "quotaBackoff")},
+		{"buildLogLeaf.errors", errorReturnGuards(m, "PreorderedLogClient.buildLogLeaf", "buildLogLeafErrorReturns")},
+		{"NewPreorderedLogClient.idFunc", switchAssignTable(m, "NewPreorderedLogClient", "idFuncType", "ret.idFunc", "idFuncTable")},
+		{"idHashCertData.arg", callArgSources(m, "idHashCertData", "sha256.Sum256", "idHashCertDataArg")},
+		{"idHashLeafIndex.encode", callArgSources(m, "idHashLeafIndex", "binary.LittleEndian.PutUint64", "idHashLeafIndexEncode")},
+		{"verifyConsistency.order", topLevelIfConds(c, "Controller.verifyConsistency", "gateOrder")},
+		{"verifyConsistency.args", callArgSources(c, "Controller.verifyConsistency", "proof.VerifyConsistency", "verifyConsistencyArgs")},
+		{"fetchTail.range", stmtRangeKernel(c, "Controller.fetchTail", "fo := c.opts.FetcherOptions", "klog.Infof(\"%s: fetching range", "fetchTailRange",
+			"(startIndex endIndex : Int) (continuous : Bool) (treeSize_ begin_ : Int)", "Int × Int × Bool", "(startIndex, endIndex, continuous)",
+			Spec{Kind: "i64", Vars: map[string]string{"fo.StartIndex": "startIndex", "fo.EndIndex": "endIndex", "fo.Continuous": "continuous"}})},
 		{"fetchTail.uptodate", condKernel(c, "Controller.fetchTail", []string{"sth.TreeSize <= begin"}, "fetchTailUpToDate", "(sthSize begin_ : Int)",
 			Spec{Kind: "u64", Repl: map[string]string{"sth.TreeSize": "sthSize"}})},
 		{"fetchTail.begin", condKernel(c, "Controller.fetchTail", []string{"int64(begin) > fo.StartIndex"}, "fetchTailBeginWins", "(begin_ startIndex : Int)",
